@@ -138,9 +138,14 @@ func c23Exec(c c23Case, x *pbt.Ctx) error {
 			}
 		}
 		pooled := map[bc.Hash]bool{}
-		for _, td := range h.n.Pool.GetTransactions() {
+		poolTxs := h.n.Pool.GetTransactions()
+		for _, td := range poolTxs {
 			pooled[td.Tx.ID] = true
 			if blk, ok := onMain[td.Tx.ID]; ok {
+				if c23TwinShape(w, best, td.Tx, poolTxs) {
+					x.Known("confirmed-tx-readmitted-through-twin-output")
+					continue
+				}
 				return fmt.Errorf("%s: transaction %s is in the pool and in main-chain block #%d (height %d)\nhistory:\n  %s", when, td.Tx.ID.String(), blk, w.Blocks[blk].Block.Height, joinLines(h.desc))
 			}
 		}
@@ -170,6 +175,59 @@ func c23Exec(c c23Case, x *pbt.Ctx) error {
 	}
 	x.NonTrivial = confirmedOnOneBranch
 	return nil
+}
+
+// c23TwinShape recognises the known finding: the confirmed transaction tx was admitted to the pool
+// because another pooled transaction has an output with the same id as the output tx spends.  At the
+// root of it is a pooled transaction that is not on the main chain and shares an output id with the
+// main-chain transaction that really created the output (two transactions with the same inputs and
+// one identical output, e.g. two versions of a payment on competing branches); confirmed
+// transactions further down the chain of spends are then admitted as children of the re-admitted ones.
+func c23TwinShape(w *ck.World, best int, tx *types.Tx, poolTxs []*protocol.TxDesc) bool {
+	mainMakers := map[bc.Hash]bc.Hash{} // output id -> main-chain transaction creating it
+	for _, i := range w.Path(best) {
+		for _, mtx := range w.Blocks[i].Block.Transactions[1:] {
+			for _, rid := range mtx.ResultIds {
+				mainMakers[*rid] = mtx.ID
+			}
+		}
+	}
+	pooledBy := map[bc.Hash][]*types.Tx{} // output id -> pooled transactions with such an output
+	byID := map[bc.Hash]*types.Tx{}
+	for _, td := range poolTxs {
+		byID[td.Tx.ID] = td.Tx
+		for _, rid := range td.Tx.ResultIds {
+			pooledBy[*rid] = append(pooledBy[*rid], td.Tx)
+		}
+	}
+	memo := map[bc.Hash]bool{}
+	var explained func(t *types.Tx, depth int) bool
+	explained = func(t *types.Tx, depth int) bool {
+		if v, ok := memo[t.ID]; ok {
+			return v
+		}
+		memo[t.ID] = false
+		if depth > 64 {
+			return false
+		}
+		for _, spent := range t.SpentOutputIDs {
+			maker, onChain := mainMakers[spent]
+			if !onChain {
+				continue
+			}
+			for _, p := range pooledBy[spent] {
+				if p.ID == t.ID {
+					continue
+				}
+				if p.ID != maker || explained(p, depth+1) {
+					memo[t.ID] = true
+					return true
+				}
+			}
+		}
+		return false
+	}
+	return explained(tx, 0)
 }
 
 func TestC23(t *testing.T) {
